@@ -574,7 +574,8 @@ func TestVerif_C18_ReadersVsReplacements(t *testing.T) {
 							bad.Store(fmt.Sprintf("GET during replacements: status %d body %q", r.Status, trunc(r.Body)))
 							return
 						}
-						what = fmt.Sprint(m["displayName"], "/", len(fmt.Sprint(m["description"])))
+						descr, _ := m["description"].(string) // an empty description is omitted
+						what = fmt.Sprint(m["displayName"], "/", len(descr))
 						if what != fmt.Sprint("version-A/", padA) && what != fmt.Sprint("version-B/", padB) {
 							bad.Store(fmt.Sprintf("the definition served (%s) is that of neither version", what))
 							return
